@@ -323,6 +323,19 @@ def run_shard(spec, rec):
             else:
                 rec.violation("casei-refuses-case-variant", w, workload="casei")
             # exact-case readings keep their meaning under case-insensitive lookup
+            if got_cs[0] == "ok" and len(m.readings(s)) == 1 and got_ci != got_cs and got_ci[0] == "ok":
+                # Within ONE prefix split the exact-case unit spelling must keep its meaning ('mA' is
+                # milli+ampere, not milli+'a' = year); a different split ('RD' = 'Rd' rutherford vs
+                # R + D) is not ranked by the statement.
+                (pc_exact, c_exact), = m.readings(s)
+                try:
+                    first = ureg.parse_unit_name(s, case_sensitive=False)[0]
+                except Exception:  # noqa: BLE001
+                    first = None
+                if first is not None and first[0] == pc_exact and first[1] != c_exact:
+                    rec.violation("casei-prefers-case-variant-over-exact-spelling-in-same-prefix-split",
+                                  dict(w, exact_case_reading=(pc_exact, c_exact), first_candidate=first),
+                                  workload="casei")
             if got_cs[0] == "ok" and len(m.readings(s)) == 1 and got_ci != got_cs:
                 # e.g. 'RD': ronna+debye case-sensitively, rutherford ('Rd') case-insensitively.
                 # The statement does not rank case variants against exact-case prefix readings:
